@@ -6,6 +6,6 @@ if ! git apply "$p" 2>/dev/null; then
   if ! git apply --3way "$p" >/dev/null 2>&1; then echo "PATCH-CONFLICT $p"; git checkout -q -- . 2>/dev/null; git reset -q --hard HEAD; exit 3; fi
 fi
 export GOLIBCHECK_EVIDENCE_DIR=$(mktemp -d /tmp/mutev.XXXXXX)
-for pr in "$@"; do /verif/bin/golibcheck -prop $pr 2>&1 | grep "VIOLATION rule\|UNDECIDED\|CHECKER" | cut -c1-300; done
+for pr in "$@"; do /verif/bin/golibcheck -prop $pr 2>&1 | grep "VIOLATION rule\|UNDECIDED\|CHECKER" | cut -c1-1200; done
 rm -rf "$GOLIBCHECK_EVIDENCE_DIR"
 git reset -q --hard HEAD; git clean -fdq -e logger/logfile/logs
